@@ -2249,13 +2249,14 @@ func (b *RecentBlocks) Decode(d *Decoder) error {
 func (a *AuthorizerHash) Decode(d *Decoder) error {
 	cLog(Cyan, "Decoding AuthorizerHash")
 
-	var val AuthorizerHash
+	// decode as the underlying hash: val.Decode on an AuthorizerHash would call this method again
+	var val OpaqueHash
 	if err := val.Decode(d); err != nil {
 		return err
 	}
 	cLog(Yellow, "AuthorizerHash: %x", val)
 
-	*a = val
+	*a = AuthorizerHash(val)
 	return nil
 }
 
